@@ -665,9 +665,21 @@ class PteraTransformer(NodeTransformer):
         After:
             x: int = _ptera_interact('x', int)
         """
+        ann = self._ann(node.annotation)
+        if node.value is None and not (
+            isinstance(node.target, ast.Name)
+            and self.should_instrument(node.target.id, ann)
+        ):
+            # A bare declaration binds nothing in Python: unless the
+            # variable is instrumented (and thus supplied from outside),
+            # leave the statement as it is.
+            if isinstance(node.target, ast.Name):
+                self.annotated[node.target.id] = self._evaluate(ann)
+                self.linenos[node.target.id] = node.target.lineno
+            return node
         return self.make_interaction(
             node.target,
-            self._ann(node.annotation),
+            ann,
             node.value and self.visit(node.value),
             orig=node,
         )
